@@ -17,7 +17,99 @@ ENTRY_EVENTS = ["compute:method", "compute:dask1", "compute_many", "persist:meth
                 "optimize", "compute:delayed"]
 
 
+FOLLOW_OPS = ["slice_step", "slice_step3", "slice_last", "add1", "sum", "rechunk1", "T", "max0"]
+
+
+def _follow(op, a):
+    if op == "slice_step":
+        return a[::2] if a.ndim else a + 0
+    if op == "slice_step3":
+        return a[..., ::3] if a.ndim else a + 0
+    if op == "slice_last":
+        return a[-1:] if a.ndim else a + 0
+    if op == "add1":
+        return a + 1
+    if op == "sum":
+        return a.sum()
+    if op == "rechunk1":
+        return a.rechunk(1) if a.ndim else a + 0
+    if op == "T":
+        return a.T
+    if op == "max0":
+        return a.max(axis=0) if a.ndim else a + 0
+    raise AssertionError(op)
+
+
+def gen_reduction_entry(rng):
+    """Structured scenario: a (possibly masked, possibly empty) source -> elementwise steps -> a reduction
+    (to a scalar or along axis 0) -> elementwise steps; persist / optimize through both drivers; then the
+    returned collections are computed, sliced, added to and persisted again.  persist/optimize read metadata
+    (meta, dtype, keys of reduction intermediates) that a plain compute never needs."""
+    nd = rng.choice([1, 1, 2])
+    shape = [rng.choice([0, 3, 5, 6, 8]) if rng.random() < 0.15 else rng.choice([3, 5, 6, 8]) for _ in range(nd)]
+    spec = {"shape": shape, "dtype": rng.choice(["f8", "i4", "f4", "u1", "b1", "i8"]), "offset": rng.randint(0, 20), "kind": "ndarray"}
+    if rng.random() < 0.6:
+        spec["masked"] = True
+    steps = [{"op": "from_array", "in": [], "args": {"src": "s0", "chunks": [rng.choice([1, 2, 3, 5])] + [rng.choice([2, 3, 8])] * (nd - 1)},
+              "out": "v0"}]
+
+    def unary(inp):
+        f = rng.choice(["neg", "abs", "addc", "mulc", "sqrtabs", "square", "round", "conj_real", "astype", "positive"])
+        a = {"f": f}
+        if f in ("addc", "mulc"):
+            a["c"] = rng.choice([1, 2, 0.5])
+        if f == "astype":
+            a["dtype"] = rng.choice(["f8", "f4", "i8"])
+        steps.append({"op": "unary", "in": [inp], "args": a, "out": f"v{len(steps)}"})
+        return steps[-1]["out"]
+
+    cur = "v0"
+    for _ in range(rng.randint(0, 2)):
+        cur = unary(cur)
+    red = {"f": rng.choice(["mean", "var", "std", "sum", "prod", "all", "any", "argmin", "argmax", "nansum", "max", "nanmax"])}
+    red["axis"] = rng.choice([None, None, 0]) if red["f"] not in ("argmin", "argmax") else rng.choice([None, 0])
+    if rng.random() < 0.3:
+        red["split_every"] = 2
+    steps.append({"op": "reduction", "in": [cur], "args": red, "out": f"v{len(steps)}"})
+    cur = steps[-1]["out"]
+    for _ in range(rng.randint(0, 2)):
+        cur = unary(cur)
+    if rng.random() < 0.3:
+        steps.append({"op": "binary", "in": [cur, cur], "args": {"f": "add"}, "out": f"v{len(steps)}"})
+        cur = steps[-1]["out"]
+    if rng.random() < 0.35:
+        # a second reduction over the (possibly meta-less) elementwise result of the first
+        steps.append({"op": "reduction", "in": [cur], "args": {"f": rng.choice(["argmin", "argmax", "sum", "max"])}, "out": f"v{len(steps)}"})
+        cur = steps[-1]["out"]
+    x = cur
+    hist = [{"ev": "build", "var": x}]
+    returned, k = [], 0
+    for _ in range(rng.randint(1, 4)):
+        k += 1
+        e = rng.choice(["persist:method", "persist:dask", "optimize", "doptimize", "compute:method", "compute:dask1", "compute:delayed"])
+        subj = x if not returned or rng.random() < 0.6 else rng.choice(returned)
+        if e.startswith("compute:"):
+            hist.append(dict({"ev": "compute", "var": subj, "entry": e.split(":")[1]}, **H.rand_sched(rng)))
+        elif e.startswith("persist:"):
+            hist.append(dict({"ev": "persist", "var": subj, "entry": e.split(":")[1], "out": f"p{k}"}, **H.rand_sched(rng)))
+            returned.append(f"p{k}")
+        elif e == "doptimize":
+            hist.append({"ev": "doptimize", "var": subj, "out": f"d{k}"})
+            returned.append(f"d{k}")
+        else:
+            hist.append({"ev": "optimize", "var": subj, "out": f"o{k}"})
+            returned.append(f"o{k}")
+    for r_ in returned:
+        hist.append(dict({"ev": "compute", "var": r_, "entry": rng.choice(["method", "dask1"])}, **H.rand_sched(rng)))
+        for _ in range(rng.randint(0, 2)):
+            hist.append(dict({"ev": "followon", "var": r_, "base": x, "op": rng.choice(FOLLOW_OPS)}, **H.rand_sched(rng)))
+    recipe = {"sources": {"s0": spec}, "generators": {}, "steps": steps}
+    return {"scribble": rng.random() < 0.5, "recipe": recipe, "x": x, "targets": [x], "history": hist}
+
+
 def gen(rng, tier):
+    if rng.random() < 0.1:
+        return gen_reduction_entry(rng)
     ctx = G.Ctx(rng)
     names = sorted(G.OPS)
     ctx.enabled = G.swarm_subset(rng, names, 0.75, always=("from_array", "rechunk", "binary", "reduction"))
@@ -25,12 +117,12 @@ def gen(rng, tier):
     if rng.random() < 0.08:
         ctx.weights["window"] = 10.0  # chains of sliding-window reductions (F21)
     ctx.allow_unknown = rng.random() < 0.4
-    if rng.random() < 0.12:
+    if rng.random() < 0.15:
         # nodes whose meta cannot be computed (masked inputs) under reductions whose tree/meta is fixed at
         # construction: persist/optimize read metadata that compute never needs
-        ctx.p_masked = 0.6
-        ctx.p_arg_reduction = 0.5
-        ctx.weights["reduction"] = 7.0
+        ctx.p_masked = 0.8
+        ctx.p_arg_reduction = 0.3
+        ctx.weights.update({"reduction": 8.0, "unary": 4.0, "window": 0.5})
     n = rng.randint(3, 10)
     recipe = G.gen_program(ctx, n, n_leaves=rng.randint(1, 2))
     steps = recipe["steps"]
@@ -93,6 +185,11 @@ def gen(rng, tier):
     # every returned collection is computed, then follow-ons are applied to it and to x
     for r_ in returned:
         hist.append(dict({"ev": "compute", "var": r_, "entry": rng.choice(["method", "dask1"])}, **H.rand_sched(rng)))
+    # generic follow-ons (independent of what the recipe happens to apply to x): the same small operation on
+    # a returned collection and on x itself must compute the same
+    for r_ in returned[:3]:
+        if rng.random() < 0.5:
+            hist.append(dict({"ev": "followon", "var": r_, "base": x, "op": rng.choice(FOLLOW_OPS)}, **H.rand_sched(rng)))
     for f in follow:
         subs = [x] + returned
         rng.shuffle(subs)
@@ -214,6 +311,35 @@ def execute(case, stats, log):
                 except Exception as e:  # noqa: BLE001
                     raise Invalid(f"follow-on input build failed: {e}")
         elif var is not None and ev["ev"] != "build" and var not in m.pool:
+            continue
+        if ev["ev"] == "followon":
+            if ev["base"] not in m.pool or m.origin.get(var) != m.origin.get(ev["base"]):
+                continue
+            import warnings as _w
+
+            with _w.catch_warnings():
+                _w.simplefilter("ignore")
+                try:
+                    want = m.compute(_follow(ev["op"], m.pool[ev["base"]]), ev)
+                except Violation:
+                    raise
+                except Exception:  # noqa: BLE001 -- the operation does not apply to x itself: nothing to compare
+                    continue
+                try:
+                    got = m.compute(_follow(ev["op"], m.pool[var]), ev)
+                except Violation:
+                    raise
+                except Exception as e:  # noqa: BLE001
+                    raise Violation(ID, "follow-on-raises",
+                                    f"event {i}: {ev['op']} applied to {var} (returned by an entry point of {ev['base']}) raised "
+                                    f"{type(e).__name__}: {str(e)[:300]} while the same operation on {ev['base']} computes", step=i)
+            stats["checked"] = stats.get("checked", 0) + 1
+            stats["probe.generic_followons"] = stats.get("probe.generic_followons", 0) + 1
+            r = same_value(got, want)
+            if r:
+                raise Violation(ID, "follow-on-differs",
+                                f"event {i}: {ev['op']} applied to {var} differs from the same operation applied to {ev['base']}: {r}", step=i)
+            log.append([i, "followon", var, ev["op"], fp(got)])
             continue
         if ev["ev"] in ("setitem", "ufunc_out"):
             # in-place operation on x: from here on the reference is x.compute() of the modified x;
